@@ -12,6 +12,8 @@ from props.parts import sendflow  # noqa: E402
 
 B = common.coq_bool
 PREFIXES = ("settings.", "ping.", "goaway.", "conn.")
+# events under the same prefixes that belong to other work packages (wake discipline, store life cycle)
+FOREIGN = {"conn.task_register", "conn.task_wake", "conn.self_wake", "conn.maybe_close_enter"}
 MAX_ID = 2147483647
 
 
@@ -148,7 +150,7 @@ def labels_of_scenario(sc):
     evs = []
     for st in trace:
         for e in st.get("ev", []):
-            if e[0].startswith(PREFIXES):
+            if e[0].startswith(PREFIXES) and e[0] not in FOREIGN:
                 evs.append((st["i"], e))
     step = {st["i"]: st for st in trace}
     labels, counts = [], {}
